@@ -28,7 +28,7 @@ import (
 )
 
 const (
-	Version     = "instr-v7"
+	Version     = "instr-v9"
 	ModulePath  = "github.com/biogo/hts"
 	HookPath    = ModulePath + "/simhook"
 	SimsyncPath = HookPath + "/simsync"
@@ -36,14 +36,14 @@ const (
 
 // Options says what to instrument and where to put the result.
 type Options struct {
-	RepoDir  string   // root of the hts working tree to instrument
+	RepoDir string // root of the hts working tree to instrument
 	// ModuleDir is where the harness's go.mod `replace` points (/repo). If
 	// RepoDir is another copy of the tree (HTS_SRC), every Go file of that
 	// copy is mapped over ModuleDir, rewritten or not.
 	ModuleDir string
-	SimrtDir string   // /verif/simrt (contains simhook/, bgzf_export.go.in)
-	OutDir   string   // scratch directory for rewritten files and overlay.json
-	StmtPkgs []string // import-path suffixes that get statement-level yields (R10); a "+" prefix selects the StmtYieldAll hook
+	SimrtDir  string   // /verif/simrt (contains simhook/, bgzf_export.go.in)
+	OutDir    string   // scratch directory for rewritten files and overlay.json
+	StmtPkgs  []string // import-path suffixes that get statement-level yields (R10); a "+" prefix selects the StmtYieldAll hook
 }
 
 // Stats counts what was rewritten.
@@ -60,6 +60,14 @@ type Stats struct {
 func SourceHash(opts Options) (string, error) {
 	h := sha256.New()
 	fmt.Fprintln(h, Version, strings.Join(opts.StmtPkgs, ","))
+	// the instrumenter is part of the running executable: a rebuilt driver
+	// never reuses output produced by an older rewriter
+	if exe, err := os.Executable(); err == nil {
+		if b, err := os.ReadFile(exe); err == nil {
+			sum := sha256.Sum256(b)
+			h.Write(sum[:])
+		}
+	}
 	var files []string
 	for _, root := range []string{opts.RepoDir, opts.SimrtDir} {
 		err := filepath.WalkDir(root, func(p string, d fs.DirEntry, err error) error {
@@ -404,7 +412,8 @@ func (rw *rewriter) file_(f *ast.File) (bool, error) {
 	if syncName == "_" || syncName == "." {
 		return false, fmt.Errorf("unsupported import form of package sync")
 	}
-	supported := map[string]bool{"Mutex": true, "RWMutex": true, "WaitGroup": true, "Once": true, "Cond": true, "NewCond": true, "Pool": true, "Map": true, "Locker": true}
+	supported := map[string]bool{"Mutex": true, "RWMutex": true, "WaitGroup": true, "Once": true, "Cond": true, "NewCond": true, "Pool": true, "Map": true, "Locker": true,
+		"OnceFunc": true, "OnceValue": true, "OnceValues": true}
 	usesRuntimeOther, usesTimeOther := false, false
 	ast.Inspect(f, func(n ast.Node) bool {
 		if se, ok := n.(*ast.SelectorExpr); ok {
@@ -424,7 +433,8 @@ func (rw *rewriter) file_(f *ast.File) (bool, error) {
 							usesTimeOther = true
 						}
 						switch se.Sel.Name {
-						case "After", "AfterFunc", "NewTimer", "NewTicker", "Tick":
+						case "AfterFunc":
+							// its callback runs on a goroutine the scheduler does not own
 							rw.fail(se, "time.%s is not supported by the simulator runtime", se.Sel.Name)
 						}
 					}
@@ -603,6 +613,12 @@ func (rw *rewriter) stmt(s ast.Stmt) ast.Stmt {
 				inner.Args = append(inner.Args, id)
 				continue
 			}
+			if tv, ok := rw.info.Types[a]; ok && tv.Value != nil {
+				// a constant expression: evaluating it later changes nothing,
+				// and a temporary would fix its default type
+				inner.Args = append(inner.Args, a)
+				continue
+			}
 			an := rw.tmpName("A")
 			list = append(list, &ast.AssignStmt{Lhs: []ast.Expr{ast.NewIdent(an)}, Tok: token.DEFINE, Rhs: []ast.Expr{a}})
 			inner.Args = append(inner.Args, ast.NewIdent(an))
@@ -639,8 +655,15 @@ func (rw *rewriter) stmt(s ast.Stmt) ast.Stmt {
 		return nil
 
 	case *ast.LabeledStmt:
-		if _, ok := x.Stmt.(*ast.SelectStmt); ok {
-			rw.fail(x, "labelled select statements are not supported")
+		if sel, ok := x.Stmt.(*ast.SelectStmt); ok {
+			// the label moves to the generated switch, so that `break L`
+			// keeps leaving the statement
+			if blk, ok := rw.selectStmt(sel).(*ast.BlockStmt); ok && len(blk.List) > 0 {
+				n := len(blk.List) - 1
+				blk.List[n] = &ast.LabeledStmt{Label: x.Label, Stmt: blk.List[n]}
+				return blk
+			}
+			rw.fail(x, "labelled select statement could not be rewritten")
 		}
 		if r, ok := x.Stmt.(*ast.RangeStmt); ok {
 			if t := rw.typeOf(r.X); t != nil {
@@ -735,6 +758,10 @@ func (rw *rewriter) selectStmt(x *ast.SelectStmt) ast.Stmt {
 		def = ast.NewIdent("true")
 	}
 	args := append([]ast.Expr{rw.site(x, "select", nil), def}, caseArgs...)
+	// a default clause keeps the rewritten statement terminating whenever the
+	// select was (all clauses return): "missing return" otherwise
+	clauses = append(clauses, &ast.CaseClause{Body: []ast.Stmt{&ast.ExprStmt{X: &ast.CallExpr{Fun: ast.NewIdent("panic"),
+		Args: []ast.Expr{&ast.BasicLit{Kind: token.STRING, Value: strconv.Quote("simhook: select chose an unknown case")}}}}}})
 	sw := &ast.SwitchStmt{Tag: hook("Select", args...), Body: &ast.BlockStmt{List: clauses}}
 	return &ast.BlockStmt{List: append(pre, sw)}
 }
